@@ -7,7 +7,7 @@ MODULE = ("Scores", "typhon/retrieval/scores.py", [
         "m = taus.size",
         "y_tau = y_tau.reshape(-1, m)",
         "n = y_tau.shape[0]",
-        "try:",
+        "try:\n    y_test = y_test.reshape(n, 1)\nexcept:\n    raise ValueError('Shape of y_test is incompatible with y_tau and taus.')",
     ]},
-    {"name": "mean_quantile_score", "reduction": "nanmean"},
+    {"name": "mean_quantile_score", "reduction": "nanmean", "reduction_kwargs": {"axis": "0"}},
 ])
